@@ -335,6 +335,13 @@ def r4_decimal_total(ctx, eng, rule="C10.R4"):
         if len(fs) != 1:
             raise CheckError("anchor %s" % name)
         tail = [1 for b, t in fs[0].body.calls() if mir.callee_of(t) == conv[0].id]
+        if not tail:
+            # through a private helper of the same file (the two converters may share their common part)
+            for c1 in prog.call_edges(fs[0]):
+                g1 = prog.fns.get(c1)
+                if g1 is not None and g1.file == fs[0].file and g1.body is not None and \
+                        any(mir.callee_of(t) == conv[0].id for _b, t in g1.body.calls()):
+                    tail = [1]
         ctx.decide(bool(tail), rule, "%s:%s:through-bit-vec" % (rule, name), fs[0].loc,
                    "converted through create_expression_from_bit_vec",
                    "%s no longer converts through the two's-complement bit vector" % name)
